@@ -87,11 +87,17 @@ pub struct Config {
     pub fair_k: u32,
     /// max decisions per execution
     pub horizon: u32,
+    /// slow spawner (delay-bounded order only): thread 0 takes its turn in the cyclic order only every
+    /// `slow0`-th time while other threads are enabled (1 = plain round robin)
+    pub slow0: u32,
+    /// false: a forced choice that is out of range falls back to choice 0 and marks the record as
+    /// diverged instead of being a machinery error (used when re-running a *violating* schedule)
+    pub strict: bool,
 }
 
 impl Default for Config {
     fn default() -> Self {
-        Config { order: Order::Pb, fair_k: 0, horizon: 20_000 }
+        Config { order: Order::Pb, fair_k: 0, horizon: 20_000, slow0: 1, strict: true }
     }
 }
 
@@ -109,6 +115,8 @@ pub struct Decision {
     pub chosen: u16,
     /// hash of the abstract state at the decision (before the chosen thread runs)
     pub state: u64,
+    /// 128-bit key of (abstract state, yielding thread, scheduler-internal counters): equal keys have equal futures
+    pub key: u128,
 }
 
 #[derive(Clone, Debug, Default)]
@@ -119,6 +127,8 @@ pub struct ExecRecord {
     pub max_flagged: u32,
     pub fatal: Option<Fatal>,
     pub final_state: u64,
+    /// a forced choice was out of range (non-strict replay only)
+    pub diverged: bool,
 }
 
 impl ExecRecord {
@@ -143,6 +153,9 @@ struct Exec {
     log: Vec<LogEntry>,
     last_log: Vec<usize>,
     thash: Vec<u64>,
+    thash2: Vec<u64>,
+    skip0: u32,
+    diverged: bool,
     last_event: Instant,
     fatal: Option<Fatal>,
 }
@@ -184,6 +197,13 @@ fn mix(h: u64, v: u64) -> u64 {
     z ^ (z >> 31)
 }
 
+#[inline]
+fn mix2(h: u64, v: u64) -> u64 {
+    let mut z = (h.rotate_left(23) ^ v).wrapping_mul(0xD6E8_FEB8_6659_FD93).wrapping_add(0xA076_1D64_78BD_642F);
+    z = (z ^ (z >> 32)).wrapping_mul(0xE703_7ED1_A0B4_28DB);
+    z ^ (z >> 29)
+}
+
 pub fn hash64(v: u64) -> u64 {
     mix(0x1234_5678_9ABC_DEF1, v)
 }
@@ -222,6 +242,32 @@ impl Exec {
         let h = mix(self.thash[t], kind as u64);
         let h = mix(h, a as u64);
         self.thash[t] = mix(h, b as u64);
+        let h = mix2(self.thash2[t], kind as u64);
+        let h = mix2(h, a as u64);
+        self.thash2[t] = mix2(h, b as u64);
+    }
+
+    fn state_key(&self, me: usize) -> u128 {
+        let mut h = 0x1357_9BDFu64;
+        for t in 0..self.st.len() {
+            let k = match self.st[t] {
+                St::Running => 1,
+                St::AtPoint => 2,
+                St::Spinning(p) => 3 + 8 * (self.progress > p) as u64,
+                St::BlockedJoin(k) => 16 + k as u64,
+                St::BlockedAll => 5,
+                St::Finished => 6,
+            };
+            h = mix2(h, self.thash2[t]);
+            h = mix2(h, k);
+            if self.cfg.fair_k > 0 {
+                h = mix2(h, self.waited[t] as u64);
+            }
+            h = mix2(h, self.flagged[t] as u64);
+        }
+        h = mix2(h, me as u64);
+        h = mix2(h, self.skip0 as u64);
+        ((self.state_hash() as u128) << 64) | h as u128
     }
 
     fn record(&self) -> ExecRecord {
@@ -232,6 +278,7 @@ impl Exec {
             max_flagged: self.max_flagged,
             fatal: self.fatal,
             final_state: self.state_hash(),
+            diverged: self.diverged,
         }
     }
 }
@@ -315,6 +362,15 @@ fn do_yield(mut g: MutexGuard<'static, Option<Exec>>, me: usize, new: St, op: Op
                     list.push(t);
                 }
             }
+            // slow spawner: thread 0 passes its turn slow0-1 times while others are enabled
+            if ex.cfg.slow0 > 1 && list.len() > 1 && list[0] == 0 {
+                if ex.skip0 + 1 < ex.cfg.slow0 {
+                    ex.skip0 += 1;
+                    list.rotate_left(1);
+                } else {
+                    ex.skip0 = 0;
+                }
+            }
         }
     }
     if list.is_empty() {
@@ -346,7 +402,11 @@ fn do_yield(mut g: MutexGuard<'static, Option<Exec>>, me: usize, new: St, op: Op
     }
     let d = ex.decisions.len();
     let c = if d < ex.prefix.len() {
-        let c = ex.prefix[d] as usize;
+        let mut c = ex.prefix[d] as usize;
+        if c >= list.len() && !ex.cfg.strict {
+            ex.diverged = true;
+            c = 0;
+        }
         if c >= list.len() {
             machinery_error(&format!(
                 "replay divergence: decision {} wants choice {} but only {} threads are enabled",
@@ -361,12 +421,14 @@ fn do_yield(mut g: MutexGuard<'static, Option<Exec>>, me: usize, new: St, op: Op
     };
     let chosen = list[c];
     let state = ex.state_hash();
+    let key = ex.state_key(me);
     ex.decisions.push(Decision {
         n_enabled: list.len() as u8,
         cur_enabled,
         choice: c as u8,
         chosen: chosen as u16,
         state,
+        key,
     });
     for t in 0..n {
         if t == chosen {
@@ -433,6 +495,8 @@ pub fn set_result_at(idx: usize, r0: i64, r1: i64) {
             ex.log[idx].r1 = r1;
             let h = mix(ex.thash[me], r0 as u64);
             ex.thash[me] = mix(h, r1 as u64);
+            let h = mix2(ex.thash2[me], r0 as u64);
+            ex.thash2[me] = mix2(h, r1 as u64);
         }
     }
 }
@@ -463,6 +527,8 @@ pub fn set_result(r0: i64, r1: i64) {
             ex.log[i].r1 = r1;
             let h = mix(ex.thash[me], r0 as u64);
             ex.thash[me] = mix(h, r1 as u64);
+            let h = mix2(ex.thash2[me], r0 as u64);
+            ex.thash2[me] = mix2(h, r1 as u64);
         }
     }
 }
@@ -523,6 +589,7 @@ pub fn before_spawn() -> usize {
             ex.flagged.push(false);
             ex.last_log.push(usize::MAX);
             ex.thash.push(hash64(id as u64));
+            ex.thash2.push(hash64(0x55 ^ ((id as u64) << 8)));
             ex.announced += 1;
             id
         }
@@ -617,6 +684,9 @@ pub fn run_one<R>(cfg: &Config, prefix: &[u8], body: impl FnOnce() -> R) -> (R, 
             log: Vec::with_capacity(128),
             last_log: vec![usize::MAX],
             thash: vec![hash64(0)],
+            thash2: vec![hash64(0x55)],
+            skip0: 0,
+            diverged: false,
             last_event: Instant::now(),
             fatal: None,
         });
@@ -629,7 +699,7 @@ pub fn run_one<R>(cfg: &Config, prefix: &[u8], body: impl FnOnce() -> R) -> (R, 
     if ex.st[1..].iter().any(|s| *s != St::Finished) {
         machinery_error("run_one: body returned while workers are still registered as running");
     }
-    if ex.decisions.len() < ex.prefix.len() {
+    if ex.decisions.len() < ex.prefix.len() && ex.cfg.strict {
         machinery_error(&format!(
             "replay divergence: execution ended after {} decisions, prefix has {}",
             ex.decisions.len(),
